@@ -35,11 +35,11 @@ ASSUMPTIONS = ["a level mean m observed k levels below the top implies a remaini
 TIERS = {
     "quick": {"worlds": 900, "wall": 520, "shrink_budget": 50,
               "required_probes": ["c06.run_completed", "c06.alloc_calls", "c06.criteria_true", "c06.stopped_at_max_level",
-                                  "c06.level_added", "c06.share_measured"]},
+                                  "c06.level_added", "c06.share_measured", "mlmc.long_creeping_history"]},
     "thorough": {"worlds": 20000, "wall": 2900, "shrink_budget": 150,
                  "required_probes": ["c06.run_completed", "c06.alloc_calls", "c06.criteria_true", "c06.stopped_at_max_level",
                                      "c06.level_added", "c06.share_measured", "c06.zero_variance_in_alloc",
-                                     "c06.misconfigured_world"]},
+                                     "c06.misconfigured_world", "mlmc.long_creeping_history"]},
 }
 
 
@@ -193,7 +193,7 @@ def _execute(wd, sc):
     allocs = [c for c in control if c[0] == "alloc"]
     if allocs:
         wd.probes["c06.alloc_calls"] += 1
-    for (_, rmse, vl, cl, ns) in ([] if sc.get("alloc_mode") == "gate_boundary" else allocs):  # scripted allocations are not the library's
+    for (_, rmse, vl, cl, ns) in ([] if sc.get("alloc_mode") in ("gate_boundary", "creep") else allocs):  # scripted allocations are not the library's
         vl, cl, ns = np.array(vl), np.array(cl), np.array(ns, dtype=float)
         if np.any(vl == 0):
             wd.probes["c06.zero_variance_in_alloc"] += 1
